@@ -681,7 +681,7 @@ func (f *Flow) refineByCond(v ssa.Value, a *Abs, c Cond) *Abs {
 	}
 	if bo, ok := c.V.(*ssa.BinOp); ok {
 		// IndexAny(v, seps) < 0 (or == -1) known to hold: v contains none of seps, i.e. v is its own cut
-		if seps, okS := notFoundCond(bo, c.True, v); okS && !a.Bot {
+		if seps, okS := f.notFoundCond(bo, c.True, v); okS && !a.Bot {
 			return cutAt(a, v, seps)
 		}
 		return a
@@ -709,6 +709,10 @@ func (f *Flow) refineByCond(v ssa.Value, a *Abs, c Cond) *Abs {
 // At returns the abstract value of v as seen at (the start of) block b,
 // refined by the branch conditions that dominate b.
 func (f *Flow) At(v ssa.Value, b *ssa.BasicBlock) *Abs {
+	if exit := f.p.mappedInPlace(v); exit != nil && blockDom(exit, b) {
+		// after a complete "for i := range s { s[i] = ... }" every element of s is one of the values stored
+		return f.cell(f.containerKey(v))
+	}
 	a := f.get(v)
 	for _, c := range CondsAt(b) {
 		a = f.refineByCond(v, a, c)
@@ -753,7 +757,12 @@ func (f *Flow) stepInstr(fn *ssa.Function, b *ssa.BasicBlock, in ssa.Instruction
 	case *ssa.Slice:
 		x := f.get(t.X)
 		if _, isStr := t.X.Type().Underlying().(*types.Basic); isStr {
-			if seps, ok := indexCut(t); ok && !x.Bot {
+			if x.Bot {
+				// nothing flows here yet: an early guess would stick in the (monotone) result
+				f.set(t, bot())
+				break
+			}
+			if seps, ok := f.indexCut(t); ok && !x.Bot {
 				// s[:IndexAny(s, seps)]: s truncated at the first of seps
 				f.set(t, cutAt(x, t.X, seps))
 				break
@@ -928,8 +937,19 @@ func (f *Flow) extract(t *ssa.Extract) *Abs {
 	switch tp := t.Tuple.(type) {
 	case *ssa.Call:
 		if callee := tp.Call.StaticCallee(); callee != nil && f.p.InModuleFn(callee) {
+			if f.poly[callee] {
+				// the result of this call site's own context
+				root := f
+				if f.parent != nil {
+					root = f.parent
+				}
+				if cx := root.ctxs[tp]; cx != nil && t.Index < len(cx.ownRet) && cx.ownRet[t.Index] != nil {
+					return translateCut(cx.ownRet[t.Index], callee, &tp.Call)
+				}
+				return bot()
+			}
 			if rs := f.Ret[callee]; rs != nil && t.Index < len(rs) && rs[t.Index] != nil {
-				return rs[t.Index]
+				return translateCut(rs[t.Index], callee, &tp.Call)
 			}
 			return bot()
 		}
@@ -1213,12 +1233,17 @@ func (f *Flow) externalResult(site ssa.CallInstruction, args []*Abs) *Abs {
 		return e
 	case "fmt.Sprintf":
 		e := taintOnly(false, all...)
-		if fs, ok := constString(cc.Args[0]); ok {
+		fs, ok := constString(cc.Args[0])
+		if !ok && len(args) > 0 && args[0] != nil && !args[0].Bot && args[0].Exact {
+			// a format parameter whose value is one known constant in this calling context
+			fs, ok = args[0].Pre, true
+		}
+		if ok {
 			if i := strings.IndexByte(fs, '%'); i >= 0 {
-				e.Pre = fs[:i]
-			} else {
-				e.Pre, e.Exact = fs, true
+				// the literal text before the first verb, then something made of the operands
+				return concat(constAbs(fs[:i]), taintOnly(false, all[1:]...))
 			}
+			e.Pre, e.Exact = fs, true
 		}
 		return e
 	}
@@ -1253,10 +1278,22 @@ func (a *Abs) startsWithVerb(verb string) (bool, string) {
 
 // indexSeps: call is strings.Index/IndexByte/IndexAny/IndexRune(x, <const>)
 // locating the first occurrence of a single byte out of a constant set.
-func indexSeps(v ssa.Value) (x ssa.Value, seps bset, ok bool) {
+func (f *Flow) indexSeps(v ssa.Value) (x ssa.Value, seps bset, ok bool) {
 	call, isC := v.(*ssa.Call)
 	if !isC {
 		return nil, seps, false
+	}
+	constString := func(v ssa.Value) (string, bool) {
+		if s, ok := constString(v); ok {
+			return s, true
+		}
+		// a separator parameter whose value is one known constant in this calling context
+		if _, isP := v.(*ssa.Parameter); isP && f != nil && f.parent != nil {
+			if a := f.get(v); a != nil && !a.Bot && a.Exact {
+				return a.Pre, true
+			}
+		}
+		return "", false
 	}
 	switch calleeName(&call.Call) {
 	case "strings.IndexAny":
@@ -1284,11 +1321,11 @@ func indexSeps(v ssa.Value) (x ssa.Value, seps bset, ok bool) {
 }
 
 // indexCut: t is x[:Index*(x, seps)].
-func indexCut(t *ssa.Slice) (bset, bool) {
+func (f *Flow) indexCut(t *ssa.Slice) (bset, bool) {
 	if t.Low != nil || t.High == nil {
 		return bset{}, false
 	}
-	x, seps, ok := indexSeps(t.High)
+	x, seps, ok := f.indexSeps(t.High)
 	if !ok || x != t.X {
 		return bset{}, false
 	}
@@ -1296,8 +1333,8 @@ func indexCut(t *ssa.Slice) (bset, bool) {
 }
 
 // notFoundCond: the condition (with polarity) states Index*(v, seps) found nothing.
-func notFoundCond(bo *ssa.BinOp, truth bool, v ssa.Value) (bset, bool) {
-	x, seps, ok := indexSeps(bo.X)
+func (f *Flow) notFoundCond(bo *ssa.BinOp, truth bool, v ssa.Value) (bset, bool) {
+	x, seps, ok := f.indexSeps(bo.X)
 	k, okK := constInt(bo.Y)
 	if !ok || !okK || x != v {
 		return seps, false
@@ -1611,4 +1648,115 @@ func translateCut(a *Abs, callee *ssa.Function, cc *ssa.CallCommon) *Abs {
 		}
 	}
 	return a
+}
+
+// mappedInPlace: v is the fresh slice result of a module call that the calling
+// function overwrites element by element in one complete loop
+//
+//	for i := range v { ...; v[i] = x; ... }
+//
+// and otherwise only measures, indexes and returns. The result is the loop's
+// exit block: wherever it dominates, every element of v is a value stored by
+// the function itself. nil when the shape is not recognised.
+func (p *Prog) mappedInPlace(v ssa.Value) *ssa.BasicBlock {
+	call, ok := v.(*ssa.Call)
+	if !ok || call.Parent() == nil {
+		return nil
+	}
+	if b, done := p.mapMemo[v]; done {
+		return b
+	}
+	if p.mapMemo == nil {
+		p.mapMemo = map[ssa.Value]*ssa.BasicBlock{}
+	}
+	p.mapMemo[v] = nil
+	if _, isSlice := v.Type().Underlying().(*types.Slice); !isSlice {
+		return nil
+	}
+	callee := call.Call.StaticCallee()
+	if callee == nil || call.Call.IsInvoke() || !p.InModuleFn(callee) || callee.Signature.Results().Len() != 1 || !p.newFresh().funcResultFresh(callee, 0) {
+		return nil
+	}
+	lens := map[ssa.Value]bool{}
+	for _, ref := range *call.Referrers() {
+		switch t := ref.(type) {
+		case *ssa.DebugRef, *ssa.Return, *ssa.IndexAddr:
+		case *ssa.Call:
+			bi, isB := t.Call.Value.(*ssa.Builtin)
+			if !isB || bi.Name() != "len" {
+				return nil
+			}
+			lens[t] = true
+		default:
+			return nil
+		}
+	}
+	fn := call.Parent()
+	li := p.Loops(fn)
+	for _, h := range fn.Blocks {
+		if !li.isHead[h] || len(h.Instrs) == 0 || len(h.Succs) != 2 {
+			continue
+		}
+		iff, isIf := h.Instrs[len(h.Instrs)-1].(*ssa.If)
+		if !isIf {
+			continue
+		}
+		bo, isB := iff.Cond.(*ssa.BinOp)
+		if !isB || bo.Op != token.LSS || !lens[bo.Y] {
+			continue
+		}
+		// the counter visits every index from 0
+		iv := bo.X
+		first := false
+		if add, isAdd := iv.(*ssa.BinOp); isAdd && add.Op == token.ADD {
+			if k, okK := constInt(add.Y); okK && k == 1 {
+				if ph, isPh := add.X.(*ssa.Phi); isPh && ph.Block() == h && len(ph.Edges) == 2 {
+					for i, e := range ph.Edges {
+						if blockDom(h, h.Preds[i]) {
+							if e != ssa.Value(add) {
+								first = false
+								break
+							}
+						} else if k0, ok0 := constInt(e); ok0 && k0 == -1 {
+							first = true
+						}
+					}
+				}
+			}
+		}
+		if !first {
+			continue
+		}
+		body, exit := h.Succs[0], h.Succs[1]
+		inLoop := func(b *ssa.BasicBlock) bool { return b == h || li.headers[b][h] }
+		closed := inLoop(body) && !inLoop(exit)
+		for _, b := range fn.Blocks {
+			if !inLoop(b) {
+				continue
+			}
+			for _, s := range b.Succs {
+				if !inLoop(s) && !(b == h && s == exit) {
+					closed = false
+				}
+			}
+		}
+		if !closed || len(body.Instrs) == 0 {
+			continue
+		}
+		isStore := func(in ssa.Instruction) bool {
+			st, ok := in.(*ssa.Store)
+			if !ok {
+				return false
+			}
+			ia, ok := st.Addr.(*ssa.IndexAddr)
+			return ok && ia.X == v && ia.Index == iv
+		}
+		seen := ReachFromFiltered(body.Instrs[0], true, isStore, nil)
+		if seen[h.Instrs[0]] {
+			continue // an iteration can finish without overwriting its element
+		}
+		p.mapMemo[v] = exit
+		return exit
+	}
+	return nil
 }
